@@ -4,6 +4,7 @@ from .. import scheme as K
 from .. import pyspec as S
 from .. import core
 ID = "C05"
+SPEC_ORACLE = ['shake', 'bits', 'samplers', 'rounding']   # specification definitions used by Props/C05.lean are compared with hashlib / pyspec on every run
 RULE = ("keys from random seeds x 6 sets; messages of length 0, 1 and the lengths that straddle the 136-byte SHAKE-256 block once the "
         "32/64-byte key hash (and the ML-DSA framing) is prepended, plus long ones; deterministic mode, hedged / randomized mode with "
         "the RNG tap serving a scripted tape (the model receives the same tape), contexts and both pre-hash functions through the "
